@@ -75,9 +75,9 @@ func cmdCheck(args []string) int {
 	}
 	seed := 0
 	fmt.Sscan(os.Getenv("VERIF_SEED"), &seed)
-	cfg := RunConfig{Repo: envOr("FVC_REPO", "/repo"), Verif: envOr("FVC_VERIF", "/verif"), Prop: prop, Tier: tier, Timeout: 10, Workers: 16}
+	cfg := RunConfig{Repo: envOr("FVC_REPO", "/repo"), Verif: envOr("FVC_VERIF", "/verif"), Prop: prop, Tier: tier, Timeout: 30, Workers: 16}
 	if tier == "thorough" {
-		cfg.Timeout = 60
+		cfg.Timeout = 120
 		cfg.AllSolvers = true
 	}
 	t0 := time.Now()
